@@ -64,7 +64,7 @@ theorem strOf_eq_deny (v : PyVal) : PyVal.pyEq (Py.strOf v) (.str "deny") = isDe
         · rename_i heq; cases heq; exact absurd rfl h
         · rfl
       simp [Py.strOf, PyVal.pyEq, this, h]
-  | int n => simp [Py.strOf, PyVal.pyEq, isDenyVal, intToString_ne_deny, intRepr_ne_deny]
+  | int n => simp [Py.strOf, PyVal.pyEq, isDenyVal, intRepr_ne_deny]
   | bool b => cases b <;> simp [Py.strOf, PyVal.pyEq, isDenyVal]
   | none => simp [Py.strOf, PyVal.pyEq, isDenyVal]
   | float f => simp [Py.strOf, PyVal.pyEq, isDenyVal]
@@ -87,14 +87,14 @@ theorem decision_is_deny (p : PyVal) :
   congr 1
   cases p <;> simp [Py.getD, PyVal.get, isDenyVal]
   rename_i kvs
-  cases lookup "decision" kvs <;> simp [isDenyVal]
+  cases lookup "decision" kvs <;> simp
 
 /-- `bool(payload.get("allowed", False))` -/
 theorem allowed_truthy (p : PyVal) :
     (Py.boolOf (Py.getD p "allowed" (.bool false))).truthy = (p.get "allowed").truthy := by
   cases p <;> simp [Py.getD, PyVal.get, Py.boolOf, PyVal.truthy]
   rename_i kvs
-  cases lookup "allowed" kvs <;> simp [PyVal.truthy]
+  cases lookup "allowed" kvs <;> simp
 
 /-- `payload.get("obligations") or []` -/
 theorem obligations_truthy (p : PyVal) :
@@ -167,7 +167,7 @@ theorem normBound_none (cfg : LogCfg) (h : effBound cfg = none) : normBound cfg.
   unfold effBound at h
   unfold normBound
   cases hm : cfg.maxEnvBytes <;> simp [hm] at h <;>
-    simp [Py.pand, Py.isInstance, Py.gt, Py.lt, PyVal.truthy, PyVal.isStr, PyVal.isList, PyVal.isDict, PyVal.isBool]
+    simp [Py.pand, Py.isInstance, Py.gt, Py.lt, PyVal.truthy]
   all_goals first | omega | (rename_i b; cases b <;> simp_all [PyVal.boolToInt])
 
 /-- with a bound in force the attribute is not None and `size > self.max_env_bytes` is the model's comparison -/
